@@ -216,7 +216,7 @@ fn mutate_text(rng: &mut Rng, t: &[u8]) -> Vec<u8> {
 
 /// hand-made packs: random delta forests, thin bases, the zero-sum layouts, in-pack ref-deltas
 fn handmade(rng: &mut Rng, scenario: u64) -> Vec<Case> {
-    let threads = *rng.pick(&[0usize, 1, 2, 3, 4, 8, 16]);
+    let threads = if scenario == 4 { *rng.pick(&[2usize, 3, 4, 8, 16]) } else { *rng.pick(&[0usize, 1, 2, 3, 4, 8, 16]) };
     let mut specs: Vec<Spec> = Vec::new();
     let mut odb: Vec<(u8, Vec<u8>)> = Vec::new();
     let mut thin = false;
@@ -252,6 +252,30 @@ fn handmade(rng: &mut Rng, scenario: u64) -> Vec<Case> {
             specs.push(Spec::Ref { base_kind: 3, base_data: b.clone(), target: mutate_text(rng, &b) });
             if thin && rng.chance(1, 2) {
                 odb.push((3, b));
+            }
+        }
+        4 => {
+            // a wide and deep delta tree under one root: the traversal switches to its multi-threaded mode once more than
+            // one node with children is pending
+            let root = text(rng, 6);
+            specs.push(Spec::Base { kind: 3, data: root.clone() });
+            let mut level: Vec<(usize, Vec<u8>)> = vec![(0, root)];
+            let mut ctr = 0;
+            for _depth in 0..3 {
+                let mut next = Vec::new();
+                for (bi, bd) in &level {
+                    for _ in 0..rng.range(2, 3) {
+                        ctr += 1;
+                        let mut t = mutate_text(rng, bd);
+                        t.extend_from_slice(format!("w{ctr}\n").as_bytes());
+                        specs.push(Spec::Ofs { base: *bi, target: t.clone() });
+                        next.push((specs.len() - 1, t));
+                    }
+                }
+                level = next;
+                if specs.len() > 24 {
+                    break;
+                }
             }
         }
         _ => {
@@ -480,7 +504,7 @@ pub fn gen(rng: &mut Rng, n: usize) -> Vec<Case> {
             out.push(c);
         }
     }
-    for s in 0..3 {
+    for s in 0..5 {
         out.extend(handmade(rng, s));
     }
     out.push(thin_case_of(&[], &[]));
@@ -494,7 +518,7 @@ pub fn gen(rng: &mut Rng, n: usize) -> Vec<Case> {
                 out.push(c);
             }
         } else if roll < 84 {
-            let s = if rng.chance(1, 8) { rng.below(3) } else { 3 };
+            let s = if rng.chance(1, 8) { rng.below(3) } else if rng.chance(1, 6) { 4 } else { 3 };
             out.extend(handmade(rng, s));
         } else {
             out.extend(git_made(rng));
